@@ -1,7 +1,7 @@
 (* Trace acceptor for the spmc model: one recorded event `[code; actor; obj; val]` of the real
-   may_queue::spmc::Queue is matched against one transition of SpmcModel (two for `used.fetch_sub`:
-   the slot read in front of it has no hook, so the read and the release are taken together), or is
-   a pure observation.  The model must be at the corresponding control point and must compute the
+   may_queue::spmc::Queue is matched against one transition of SpmcModel or is a pure observation (the model reads
+   a claimed range in one transition: it is taken at the first `slot.read` event of the batch, the
+   others are observations whose offsets and number are checked).  The model must be at the corresponding control point and must compute the
    value the code observed.  Codes are bound to source sites in Queue/spmc_sites.json.
 
    api   1 push.call(v) 2 push.ret | 3 lpop.call 4 lpop.ret(some,v) | 5 pop.call 6 pop.ret(some,v)
@@ -15,7 +15,7 @@
    bulk  60 head.load 61 tail.index.load#0 62 tail.block.load#0 63 head.cas(ok) 64 start.load 65 tail.index.load#1
          66 head.store#0 (restore) 67 next.load 68 head.store#1 (next) 69 head.store#2 (same block) 70 tail.index.load#2 (wait loop)
          71 tail.index.load#3 72 tail.block.load#1
-   80 used.fetch_sub(old) | is_empty 90 head.load 91 tail.index.load 92 tail.block.load
+   80 used.fetch_sub(old) 81 slot.read(offset) | is_empty 90 head.load 91 tail.index.load 92 tail.block.load
 
    Actors: the normaliser numbers OS threads from 1.  Events at the sites of push / local_pop and the
    api events push.* / lpop.* belong to the model's owner (actor 0) whatever thread executes them
@@ -28,8 +28,9 @@ From Coq Require Import List ZArith Bool Arith Lia.
 Import ListNotations.
 Require Import MayV.Queue.SpmcModel.
 
-Record aux := { amap : list (Z * nat); nxt : nat }.
-Definition aux0 : aux := {| amap := []; nxt := 1 |}.
+Record aux := { amap : list (Z * nat); nxt : nat; rcnt : nat -> nat (* slot reads seen of the actor's current batch *) }.
+Definition aux0 : aux := {| amap := []; nxt := 1; rcnt := fun _ => O |}.
+Definition set_rcnt (x : aux) (a n : nat) : aux := {| amap := amap x; nxt := nxt x; rcnt := upd (rcnt x) a n |}.
 
 Fixpoint look (m : list (Z * nat)) (z : Z) : option nat :=
   match m with [] => None | (z', n) :: r => if Z.eqb z z' then Some n else look r z end.
@@ -42,14 +43,14 @@ Definition bind (x : aux) (z : Z) (n : nat) : option aux :=
   | Some m => if Nat.eqb m n then Some x else None
   | None => match rlook (amap x) n with
             | Some _ => None
-            | None => Some {| amap := (z, n) :: amap x; nxt := Nat.max (nxt x) (S n) |}
+            | None => Some {| amap := (z, n) :: amap x; nxt := Nat.max (nxt x) (S n); rcnt := rcnt x |}
             end
   end.
 (* the allocator returned address z: the model address it stands for (a new one if z was never seen) *)
 Definition choose (x : aux) (z : Z) : nat * aux :=
   match look (amap x) z with
   | Some m => (m, x)
-  | None => (nxt x, {| amap := (z, nxt x) :: amap x; nxt := S (nxt x) |})
+  | None => (nxt x, {| amap := (z, nxt x) :: amap x; nxt := S (nxt x); rcnt := rcnt x |})
   end.
 
 Definition pc_eqb (x y : pcT) : bool :=
@@ -194,10 +195,17 @@ Definition accept_ev (sx : st * aux) (e : list Z) : option (st * aux) :=
     | 70 => ev_tix_load s x t KBulk XW (retry (A s t)) v
     | 71 => ev_tix_load s x t KBulk X1 true v
     | 72 => ev_tbk_load s x t KBulk true v
-    (* ---- mark_slots_read: the (unhooked) slot read and the release *)
-    | 80 => let a := if pc_eqb (pc (A s t)) XG then t else O in
+    (* ---- the slot reads of get / copy_to_bulk (val = offset in the block): the model reads the whole claimed range in
+            one transition, taken at the first read; the following reads of the batch are checked against the range *)
+    | 81 => let a := if pc_eqb (pc (A s t)) XG || pc_eqb (pc (A s t)) XM then t else O in
             if pc_eqb (pc (A s a)) XG
-            then go s (Some x) (zeqn v (used (heap s (lb (A s a))))) [Step a O; Step a O] tt_
+            then go s (Some (set_rcnt x a 1%nat)) (zeqn v (li (A s a))) [Step a O] tt_
+            else go s (Some (set_rcnt x a (S (rcnt x a))))
+                    (pc_eqb (pc (A s a)) XM && Nat.ltb (rcnt x a) (pend (A s a) - ppi (A s a)) && zeqn v (li (A s a) + rcnt x a)) [] tt_
+    (* ---- mark_slots_read *)
+    | 80 => let a := if pc_eqb (pc (A s t)) XM then t else O in
+            if pc_eqb (pc (A s a)) XM
+            then go s (Some x) (Nat.eqb (rcnt x a) (pend (A s a) - ppi (A s a)) && zeqn v (used (heap s (lb (A s a))))) [Step a O] tt_
             else go s (Some x) (pc_eqb (pc (A s a)) LKr && zeqn v (used (heap s (lb (A s a))))) [Step a O] tt_
     (* ---- is_empty *)
     | 90 => go s (chk_head x v (hb s) (hi s) (hl s)) (at_ s t E0 KEmpty) [Step t O] tt_
